@@ -3,7 +3,7 @@
    model: model/VecIndex.v (Engine.Add = add, Index.forklessCause = fc, Index.ForklessCause with its
    LRU = fc_query); specification: spec/FcSpec.v (fc_spec: ancestry closure + seq-forks). *)
 From Coq Require Import NArith List Permutation Bool.
-From LV Require Import model.VecIndex spec.FcSpec proofs.FcSpecFast proofs.FcSpecFacts proofs.VecInv proofs.VecStep proofs.VecMain.
+From LV Require Import model.VecIndex spec.FcSpec spec.StreamSpec proofs.FcSpecFast proofs.FcSpecFacts proofs.VecInv proofs.VecStep proofs.VecMain.
 Import ListNotations.
 Local Open Scope N_scope.
 Local Open Scope bool_scope.
@@ -53,6 +53,10 @@ Theorem C05_spec_stable_under_growth : forall ws q n E1 E2 a b, submap E1 E2 -> 
   fc_spec ws q n E2 a b = fc_spec ws q n E1 a b.
 Proof. exact fc_spec_submap. Qed.
 
+(* the executable hypothesis check run by the driver on every generated stream *)
+Theorem C05_wf_check_is_hypothesis : forall n E e, wf_evb n E e = true <-> wf_ev n E e.
+Proof. exact wf_evb_iff. Qed.
+
 (* non-vacuity: 3 validators (weights 1,1,1, quorum 3); validator 0 forks at seq 2 (events 4 and 5);
    event 6 sees the fork.  The stream is well-formed, a query is true, a query is false because of the
    fork, and the cached history returns exactly these answers. *)
@@ -89,3 +93,4 @@ Print Assumptions C05_forkless_cause_equals_spec.
 Print Assumptions C05_order_independent.
 Print Assumptions C05_cached_queries_equal_spec.
 Print Assumptions C05_spec_stable_under_growth.
+Print Assumptions C05_wf_check_is_hypothesis.
